@@ -89,6 +89,23 @@ Third round (C15 and C08 agents were told what the machinery evidently does and 
   mutant was measured, so it never counted as a miss - recorded here because without that addition it would have been one.
 * `seeded/C17-r2c17-*`, `seeded/C19-r2c19-m1/m3`: caught by the machinery as it was.
 
+* `seeded/C20-r3c20-m1/m2/m3` (candidate paths of 4096 octets or more never opened; `localtime` matched case-insensitively; files
+  above 1 MiB treated as unreadable): all three missed - the workload had no very long values, no case variants of `localtime`, no
+  large files. Added values of 4095/4096/4097/5000/70000 octets (names, absolute paths, descriptions padded with blanks),
+  `Localtime`/`LOCALTIME`/... (also as existing file names), and `fill` contents (64 KiB ... 3 MiB of one byte) that must be read,
+  refused as files and end the search. The allocation bound for a resolution now counts the TZ value and the candidate paths as input.
+* `seeded/C07-r3c07-m1` (a 256-entry stack cache indexed by local-time-type index in `find`) and `m2` (i32 subtraction of two offsets in
+  `project`): missed - zones with more than 256 types cannot come from a TZif file and no projection between two extreme offsets was
+  generated. Added the constructor workloads `tzref_many` (257-456 types through `TimeZoneRef::new`, then lookups and searches at the
+  transitions) and `project_x` (projection between fixed zones with offsets up to +-(2^31-1)). `m3` (unreachable!() for rules straddling
+  the new year) was caught as it was.
+
+False alarms: an independent agent wrote eight behaviour-preserving changes (`/verif/benign/b1..b8`: rewritten binary searches, restructured
+TZif block parsing with checked sizes, a different `TzAsciiStr` representation, Hinnant's civil-from-days in `from_timespec`, `find_date_time`
+split into helpers, a local `Vec<String>` of candidate paths in `read_tz_file`, reworded error messages plus extra derives and `#[inline]`s,
+a merged `AlternateTime::find_local_time_type`), each verified by that agent with a differential harness against HEAD. All six checks stayed
+silent on all eight (`tools/benign.py`, 48 runs, `benign/*/result.json`).
+
 Residual risk, stated plainly: a data race on state reached only through pointers (so that no static or TLS byte changes) that needs a
 preemption between two specific instructions is found by the Miri tier only with luck; tier A never preempts inside a call.
 """)
